@@ -1,6 +1,7 @@
 package props
 
 import (
+	"github.com/Factom-Asset-Tokens/factom"
 	"github.com/pegnet/pegnetd/fat/fat2"
 	"fmt"
 	"os"
@@ -55,12 +56,21 @@ func runC09(c *core.Ctx, r *core.Result) {
 	// the window ends ON the second staking-snapshot height (576; the first snapshot, 432, lies in the prefix): the last block
 	// values the holders' stakes, with fall-back rates when it has none of its own, after any placement of restarts
 	c09Explore(c, r, 4, depth-1, c09Snapshot)
+	// who is a top PEG holder changes through a block that only DEBITS PEG (a holder burns all of it in a block without price
+	// records), around blocks whose 25 staking records need that holder to be graded; the staking records quote pEUR out of band,
+	// so whether they are graded shows in the recorded rates
+	c09Explore(c, r, 4, depth-2, c09Holders)
 }
 
 const (
 	c09Cross    = -1
 	c09Snapshot = -2
+	c09Holders  = -3
 )
+
+const c09HolderKey = 30 // a PEG holder whose staking record is among the 25 of an S block, and who can burn all its PEG (B block)
+
+func keyPtr(k int) *factom.FsAddress { s := kit.Key(k); return &s }
 
 func c09Block(b *drive.Builder, typ byte) {
 	h := b.Next()
@@ -72,6 +82,22 @@ func c09Block(b *drive.Builder, typ byte) {
 		s.Rates = R2().With("PEG", uint64(3e7+h%7*1e6))
 	}
 	s.OPRPayTo = kit.AddrStr(KM)
+	if typ == 'B' || typ == 'S' {
+		X := kit.Addr(c09HolderKey)
+		sr := R1().With("EUR", R1()[kit.AssetIndex("EUR")]*5/2)
+		if typ == 'S' {
+			// graded; 24 staking records by A and one by X
+			s.Rates = R1()
+			s.SPR = append(sprSet(b.Era, h, sr, AddrA[:], KA, 24), kit.SPRSpec{Version: b.Era.SPRVersion(h), Height: int32(h), Rates: sr, Coinbase: kit.AddrStr(799), ID: "sX", Staker: X[:], SignWith: keyPtr(c09HolderKey)}.Entry())
+		} else {
+			// no price records, 24 staking records (too few to be graded, but every one of them is checked against the top holders);
+			// X sends whatever PEG it holds to the burn address: a debit only
+			s.SPR = sprSet(b.Era, h, sr, AddrA[:], KA, 24)
+			s.TX = []fake.Entry{b.Tx(c09HolderKey, kit.Transfer(X, "PEG", 10e8, GlobalBurn()))}
+		}
+		b.Add(s)
+		return
+	}
 	// one conversion per block; amount varies with the height so that entries are distinct
 	s.TX = []fake.Entry{b.Tx(KA, kit.Conversion(AddrA, "PEG", uint64(1e8+uint64(h)*1000), "pUSD"))}
 	if strings.HasPrefix(b.Era.Name, "activations-inside") {
@@ -82,7 +108,10 @@ func c09Block(b *drive.Builder, typ byte) {
 
 func c09Explore(c *core.Ctx, r *core.Result, period uint64, depth int, stage int) {
 	var era drive.Era
-	if stage == c09Snapshot {
+	if stage == c09Holders {
+		era = drive.EraStage(drive.StV204Burn)
+		era.Name = "top-holder-set-changes"
+	} else if stage == c09Snapshot {
 		// without averaging: the known window finding (C09-K1) would otherwise explain away whatever differs here
 		era = drive.EraStage(drive.StV204Burn)
 		era.Name = "window-ends-at-snapshot-576"
@@ -106,6 +135,9 @@ func c09Explore(c *core.Ctx, r *core.Result, period uint64, depth int, stage int
 	// prefix: funded, window fully rated; keep the uninterrupted daemon's cache
 	b0 := drive.NewBuilder(era)
 	FundStd(b0)
+	if stage == c09Holders {
+		b0.Add(drive.BlockSpec{Rates: R1(), OPRPayTo: kit.AddrStr(KM), TX: []fake.Entry{b0.Tx(KA, kit.Transfer(AddrA, "PEG", 10e8, kit.Addr(c09HolderKey)))}})
+	}
 	if stage == c09Snapshot {
 		for b0.Next() < 431 {
 			b0.AddEmpty(1)
@@ -137,8 +169,12 @@ func c09Explore(c *core.Ctx, r *core.Result, period uint64, depth int, stage int
 
 	// shard by the first two blocks of the window
 	firsts := []string{}
-	for _, a := range "12U" {
-		for _, bb := range "12U" {
+	alpha := "12U"
+	if stage == c09Holders {
+		alpha = "BS1"
+	}
+	for _, a := range alpha {
+		for _, bb := range alpha {
 			firsts = append(firsts, string(a)+string(bb))
 		}
 	}
@@ -164,7 +200,7 @@ func c09Explore(c *core.Ctx, r *core.Result, period uint64, depth int, stage int
 					next = nil
 					break
 				}
-				types := "12U"
+				types := alpha
 				if lvl < 2 {
 					types = string(first[lvl])
 				}
